@@ -52,8 +52,8 @@ def lookup_impl(cs, nn, regs, cons_by_type, default, ty, layer_spec):
     spec = cs.CostSpec(default_behavior=default)
     fns = {}
     for (t, c, tag) in regs:
-        f = (lambda tag: (lambda s: tag))(tag)
-        fns[tag] = f
+        f = fns.get(tag) or (lambda tag: (lambda s: tag))(tag)       # one function object per tag: a repeated tag is ONE function
+        fns[tag] = f                                                 # registered for several patterns
         spec[(getattr(nn, t), None if c is None else cons_by_type[t][c])] = f
     try:
         fn = spec[(getattr(nn, ty), layer_spec)]
@@ -115,7 +115,8 @@ def gen_cases(ctx, pt):
     for _ in range(n):
         ty = ctx.rng.choice(TYPES)
         L = ctx.rng.randint(0, 8)
-        regs = [(ctx.rng.choice(TYPES), ctx.rng.choice(pats), 100 + j) for j in range(L)]
+        shared_fn = ctx.rng.random() < 0.35      # the same cost function registered for several patterns (one estimator serving
+        regs = [(ctx.rng.choice(TYPES), ctx.rng.choice(pats), 100 + (ctx.rng.randint(0, 2) if shared_fn else j)) for j in range(L)]   # dw and 3x3 layers)
         cons, specs = constraints_for(ty, pt)
         ls = ctx.rng.choice(specs)
         sat = [i for i, c in enumerate(cons) if c(ls)]
@@ -332,7 +333,10 @@ def run(ctx):
     nviol = 0
     for c, o in zip(cases, impl):
         if c['kind'] != 'exhaustive':
-            continue
+            # seeded stream (one function may serve several patterns): the documented rule speaks about pairwise distinct patterns
+            pats_ty = [r[1] for r in c['regs'] if r[0] == c['ty']]
+            if len(set(pats_ty)) != len(pats_ty):
+                continue
         exp = rule_py(c['regs'], c['ty'], c['sat'])
         if o != exp:
             nviol += 1
@@ -340,7 +344,8 @@ def run(ctx):
             key = 'lookup-differs-from-rule'
             ctx.violation(key, {'case': {k: v for k, v in c.items() if k != 'group'}, 'impl_outcome': o, 'rule_outcome': exp},
                           'CostSpec lookup returned %s, the documented rule gives %s for registrations %s, layer %s (codes: tag=found, -1 default, -2 conflict)' % (o, exp, c['regs'], c['spec']))
-        groups.setdefault(c['group'], set()).add(o)
+        if c['group'] is not None:
+            groups.setdefault(c['group'], set()).add(o)
     for g, outs in groups.items():
         if len(outs) > 1:
             ctx.violation('lookup-order-dependent', {'group': [g[0], sorted(map(str, g[1])), g[2], g[3]], 'outcomes': sorted(outs)},
